@@ -604,6 +604,23 @@ class ModelsOps:
             return o
         if name == "dict":
             return DictV()
+        if t.ci is not None and ("NamedTuple" in t.ci.base_names or getattr(t, "nt_fields", None)):
+            fields = getattr(t, "nt_fields", None) or t.ci.fields
+            vals = list(args)
+            for f in fields[len(vals):]:
+                if f in kwargs:
+                    vals.append(kwargs[f])
+                elif t.ci is not None and f in t.ci.attrs:
+                    vals.append(self.global_expr(t.ci.module, f"{name}.{f}", t.ci.attrs[f], node))
+                else:
+                    I.raise_("TypeError", node)
+            return NTupleV(vals, fields, name)
+        if getattr(t, "nt_fields", None):
+            fields = t.nt_fields
+            vals = list(args) + [kwargs[f] for f in fields[len(args):] if f in kwargs]
+            if len(vals) != len(fields):
+                I.raise_("TypeError", node)
+            return NTupleV(vals, fields, name)
         if t.ci is not None:
             return self.instantiate(t.ci, args, kwargs, node)
         if name in ("ValueError", "TypeError", "KeyError"):
